@@ -81,8 +81,17 @@ fn fin_scenario(n: usize, slots: usize, nb_nodes: usize, nbehav: u8, pre_stash: 
     for i in 0..MAXN {
         if w().stash[i].is_some() {
             any = true;
-            match any_below(3) {
+            match any_below(if cfg!(feature = "weak-ptrs") && weak { 4 } else { 3 }) {
                 1 => drop_stash(i),
+                #[cfg(feature = "weak-ptrs")]
+                3 => {
+                    // first Weak of an object that may already be finalized, then release it
+                    if let Some(c) = &w().stash[i] {
+                        let wk = c.downgrade();
+                        drop(wk);
+                    }
+                    drop_stash(i);
+                }
                 #[cfg(feature = "finalization")]
                 2 => {
                     if let Some(c) = &mut w().stash[i] {
@@ -134,6 +143,92 @@ pub fn h_fin_weak_n2() {
 #[no_mangle]
 pub fn h_fin_weak_n3() {
     fin_scenario(3, 1, 1, F_NBEHAV_WEAK, false, true, false);
+}
+
+// ---- finalizers that keep releasing objects: more passes than the collector's cap of 10 per call
+pub const CHAIN: usize = 12;
+pub struct Link {
+    pub k: usize,
+    pub me: std::cell::UnsafeCell<Option<Cc<Link>>>,
+}
+pub static mut CHAIN_HELD: [Option<Cc<Link>>; CHAIN] = [const { None }; CHAIN];
+pub static mut CHAIN_FIN: [u8; CHAIN] = [0; CHAIN];
+pub static mut CHAIN_DROP: [u8; CHAIN] = [0; CHAIN];
+unsafe impl Trace for Link {
+    fn trace(&self, ctx: &mut Context<'_>) {
+        unsafe { (*self.me.get()).trace(ctx) }
+    }
+}
+impl Finalize for Link {
+    fn finalize(&self) {
+        unsafe {
+            CHAIN_FIN[self.k] += 1;
+            // release the next one: it becomes garbage only now, so every object costs the collector another pass
+            if self.k + 1 < CHAIN {
+                let n = (*core::ptr::addr_of_mut!(CHAIN_HELD))[self.k + 1].take();
+                drop(n);
+            }
+        }
+    }
+}
+impl Drop for Link {
+    fn drop(&mut self) {
+        unsafe { CHAIN_DROP[self.k] += 1 };
+    }
+}
+
+/// C06 (termination), C02 (completeness after repeated calls), C15 (at most one collection per creation).
+#[no_mangle]
+pub fn h_chain12() {
+    unsafe {
+        let held = &mut *core::ptr::addr_of_mut!(CHAIN_HELD);
+        for k in 0..CHAIN {
+            let c = Cc::new(Link { k, me: std::cell::UnsafeCell::new(None) });
+            *c.me.get() = Some(c.clone()); // a self cycle
+            held[k] = Some(c);
+        }
+        // how the first one is released: explicit collection, or a collection triggered by Cc::new
+        let first = held[0].take();
+        drop(first);
+        let auto = any_below(2) == 1;
+        #[cfg(feature = "auto-collect")]
+        if auto {
+            let with_buffered = any_below(2) == 1;
+            if with_buffered {
+                let _ = rust_cc::config::config(|c| c.set_buffered_objects_threshold(core::num::NonZeroUsize::new(1)));
+            }
+            let e0 = state::executions_count().unwrap_or(0);
+            let c = Cc::new(1u8);
+            let e1 = state::executions_count().unwrap_or(0);
+            check(e1 - e0 <= 1, 101); // C15: at most once per creation
+            drop(c);
+        }
+        // repeated until a call runs no finalizer and no destructor
+        let mut calls = 0u32;
+        loop {
+            let before: u32 = (0..CHAIN).map(|k| CHAIN_FIN[k] as u32 + CHAIN_DROP[k] as u32).sum();
+            collect_cycles();
+            let after: u32 = (0..CHAIN).map(|k| CHAIN_FIN[k] as u32 + CHAIN_DROP[k] as u32).sum();
+            calls += 1;
+            if after == before {
+                break;
+            }
+            if calls > 4 {
+                check(false, 102); // C06: does not become quiescent
+                break;
+            }
+        }
+        for k in 0..CHAIN {
+            if cfg!(feature = "finalization") {
+                check(CHAIN_FIN[k] == 1 && CHAIN_DROP[k] == 1, 103); // C02: everything reclaimed; C05: once
+            }
+        }
+        if cfg!(feature = "finalization") {
+            check(state::allocated_bytes().unwrap_or(1) == 0 && heap_live() == 0, 104);
+        }
+        check(!state::is_tracing().unwrap_or(true), 105);
+        cover(1);
+    }
 }
 
 #[no_mangle]
